@@ -127,6 +127,12 @@ func runC07(c *harness.Ctx, reps int) {
 			}
 		}
 		c.Cover("keys:large")
+		if reps > 9 {
+			reps = 9 // every repetition renders a result of thousands of values: three rounds over the three builds are enough
+		}
+		if n > 130 {
+			reps = 3
+		}
 	}
 	c.Cover(fmt.Sprintf("keys:%d", n))
 	sorted := append([]string{}, keys...)
